@@ -103,6 +103,41 @@ def _closed(node, scope, pure=()):
     return True
 
 
+def _is_shape_tuple(v):
+    """`A.shape` / `np.shape(A)`: an expression whose value is a tuple (iteration
+    order == index order, immutable)."""
+    if isinstance(v, ast.Attribute) and v.attr == 'shape':
+        return True
+    if isinstance(v, ast.Call) and len(v.args) == 1 and not v.keywords:
+        if call_name(v) in ('np.shape', 'numpy.shape'):
+            return True
+        if call_name(v) in ('tuple', 'list'):
+            return _is_shape_tuple(v.args[0])
+    return False
+
+
+def _unpacked_component(site, name):
+    """`a, b = T` with T a shape tuple: the value bound to the k-th target is
+    T[k] (the unpacking additionally raises when len(T) differs from the number
+    of targets; that only removes executions).  None when `name` is not bound
+    that way by `site`."""
+    if not isinstance(site, ast.Assign) or len(site.targets) != 1:
+        return None
+    t = site.targets[0]
+    if not isinstance(t, (ast.Tuple, ast.List)) or not _is_shape_tuple(site.value):
+        return None
+    if not all(isinstance(e, ast.Name) for e in t.elts):
+        return None
+    ids = [e.id for e in t.elts]
+    if ids.count(name) != 1:
+        return None
+    src = site.value
+    while isinstance(src, ast.Call) and call_name(src) in ('tuple', 'list'):
+        src = src.args[0]                 # the components of tuple(T) / list(T) are those of T
+    return ast.copy_location(ast.Subscript(value=src, slice=ast.Constant(value=ids.index(name)),
+                                           ctx=ast.Load()), site.value)
+
+
 class Expander:
     """FuncInfo.expand with (a) extra call names known to be pure, (b) a
     filter on the temporaries that may be seen through (C locals whose type
@@ -133,6 +168,8 @@ class Expander:
         if site in ('PARAM', 'UNBOUND') or not isinstance(site, (ast.Assign, ast.AnnAssign)):
             return None
         v = fi.def_value(site, n.id)
+        if v is None:
+            v = _unpacked_component(site, n.id)
         if v is None or isinstance(v, ast.GeneratorExp) or not _pure_expr(v, self.pure):
             return None
         if fi._mutated_in_place(n.id):
@@ -209,6 +246,8 @@ class _Ext(ast.NodeTransformer):
             return ast.Call(func=ast.Name(id='len', ctx=ast.Load()), args=[self._shape(a)], keywords=[])
         if cn in ('np.shape', 'numpy.shape'):
             return self._shape(a)
+        if cn == 'tuple' and isinstance(a, ast.Attribute) and a.attr == 'shape':
+            return a                      # .shape is a tuple already
         return n
 
     def visit_Attribute(self, n):
@@ -630,6 +669,13 @@ def d0_validation(ck, mod, PREP, kernels=()):
         # about (is / in ...) may well be an equivalent spelling: not a violation
         unexplained += [(f['site'], set(), 'guard `%s`' % f['text']) for f in facts
                         if f['op'] not in _ORDER_OPS and (names_loaded(f['lhs']) | names_loaded(f['rhs'])) & set(names)]
+        # a raising guard on a local whose value the expansion could not trace back to the
+        # parameters (unpacked from a call, loop-carried, several definitions): it may well
+        # compare the very extents asked for
+        for f in facts:
+            loc = sorted(nm for nm, dss in f['leaf'].items() if any(ds not in (PARAM_ONLY, frozenset()) for ds in dss))
+            if loc and f['op'] in _ORDER_OPS:
+                unexplained.append((f['site'], set(), 'guard `%s` on untraced local(s) %s' % (f['text'], ', '.join(loc))))
         if cands:
             # the right guard exists but some path goes round it
             ck.bad(rule, mod, cands[0]['site'], PREP, 'path of %s guard: %s' % (label, cands[0]['text']),
@@ -1275,21 +1321,161 @@ def _const_elems(e):
     return None
 
 
+_DICT_READS = ('get', 'keys', 'values', 'items', 'copy')
+
+
+def _module_table(mod, name):
+    """[(key, value expr)] of a module-level `name = {const: expr, ...}` that is
+    assigned once and only ever read (membership test, subscript load,
+    .get/.keys/.values/.items, len, iteration); None otherwise."""
+    vals = [s.value for s in mod.tree.body if isinstance(s, ast.Assign) and len(s.targets) == 1
+            and isinstance(s.targets[0], ast.Name) and s.targets[0].id == name]
+    if len(vals) != 1 or _module_constant(mod, name) is None:
+        return None
+    tab = _dict_items(vals[0])
+    if tab is None:
+        return None
+    for n in ast.walk(mod.tree):
+        if not (isinstance(n, ast.Name) and n.id == name):
+            continue
+        if not isinstance(n.ctx, ast.Load):
+            if isinstance(n.ctx, ast.Del):
+                return None
+            continue                      # the single assignment (checked by _module_constant)
+        p = mod.parent.get(n)
+        if isinstance(p, ast.Compare) and n in p.comparators and all(isinstance(o, (ast.In, ast.NotIn)) for o in p.ops):
+            continue
+        if isinstance(p, ast.Subscript) and p.value is n and isinstance(p.ctx, ast.Load):
+            continue
+        if isinstance(p, ast.Attribute) and p.value is n and p.attr in _DICT_READS and isinstance(p.ctx, ast.Load):
+            continue
+        if isinstance(p, ast.Call) and call_name(p) in ('len', 'sorted', 'list', 'tuple', 'set', 'frozenset') and n in p.args:
+            continue
+        if isinstance(p, (ast.For, ast.comprehension)) and p.iter is n:
+            continue
+        return None                       # stored into, deleted from, updated, handed to other code
+    return tab
+
+
+def _dict_items(e):
+    """[(constant key, value expr)] of a dict display with constant keys."""
+    if isinstance(e, ast.Dict) and e.keys and all(isinstance(x, ast.Constant) for x in e.keys):
+        return [(kx.value, vx) for kx, vx in zip(e.keys, e.values)]
+    return None
+
+
+_ABSENT = object()
+
+
+def _lookup(e, metric, val, mod):
+    """`e` is a lookup of the parameter `metric` in a constant table
+    (`T[metric]`, `T.get(metric[, default])`; T a dict display or a read-only
+    module-level dict) -> ('value', expr, module_level) | ('keyerror',) when
+    metric == val; None when `e` is not such a lookup."""
+    def table(t):
+        if isinstance(t, ast.Dict):
+            tab = _dict_items(t)
+            return (tab, False) if tab is not None else None
+        if isinstance(t, ast.Name):
+            tab = _module_table(mod, t.id)
+            return (tab, True) if tab is not None else None
+        return None
+
+    def is_metric(x):
+        return isinstance(x, ast.Name) and x.id == metric
+
+    def find(tab):
+        hit = _ABSENT
+        if val is _CALLABLE:
+            return hit                    # a function object equals no constant key
+        for kx, vx in tab:
+            if type(kx) is type(val) and kx == val:
+                hit = vx                  # a later duplicate key wins
+        return hit
+    if isinstance(e, ast.Subscript) and is_metric(e.slice):
+        tb = table(e.value)
+        if tb is None:
+            return None
+        hit = find(tb[0])
+        return ('keyerror',) if hit is _ABSENT else ('value', hit, tb[1])
+    if isinstance(e, ast.Call) and isinstance(e.func, ast.Attribute) and e.func.attr == 'get' and not e.keywords \
+            and len(e.args) in (1, 2) and is_metric(e.args[0]):
+        tb = table(e.func.value)
+        if tb is None:
+            return None
+        hit = find(tb[0])
+        if hit is not _ABSENT:
+            return ('value', hit, tb[1])
+        return ('value', e.args[1] if len(e.args) == 2 else ast.Constant(value=None), False)
+    return None
+
+
 _CALLABLE = object()      # a user-supplied distance function
 _COMPOUND = tuple(getattr(ast, n) for n in ('For', 'AsyncFor', 'While', 'With', 'AsyncWith', 'Match') if hasattr(ast, n))
 
 
-def _ev(test, metric, val, mod):
+def _resolve(e, metric, val, mod, fi, depth=4):
+    """The value expression `e` denotes when metric == val: temporaries
+    expanded, conditional expressions decided, lookups in constant tables
+    replaced by the entry.  -> ('value', expr, module_level) | ('keyerror',) |
+    None (a condition could not be decided)."""
+    if fi is not None and not (isinstance(e, ast.Name) and e.id == metric):
+        try:
+            e = fi.expand(e, stop=(metric,))
+        except Exception:
+            pass
+    while isinstance(e, ast.IfExp) and depth > 0:
+        t = _ev(e.test, metric, val, mod, fi)
+        if t is None:
+            return None
+        e = e.body if t else e.orelse
+        depth -= 1
+    lk = _lookup(e, metric, val, mod)
+    if lk is None:
+        return ('value', e, False)
+    if lk[0] == 'value' and not lk[2] and depth > 0:
+        return _resolve(lk[1], metric, val, mod, None, depth - 1)     # default of .get / entry of a local display
+    return lk
+
+
+def _looked_up(e, metric, val, mod, fi):
+    """Is the value of `e` known to be None / a reference to a function?
+    -> None (unknown / raises) | 'none' | 'object' (neither None nor falsy: a
+    reference to an imported function or module attribute)."""
+    if isinstance(e, ast.Name) and e.id == metric:
+        return None
+    r = _resolve(e, metric, val, mod, fi)
+    if r is None or r[0] != 'value':
+        return None
+    v = r[1]
+    if isinstance(v, ast.Constant):
+        return 'none' if v.value is None else None
+    if fi is not None and isinstance(v, (ast.Name, ast.Attribute)) and _global_ref(mod, fi, v, True) is not None:
+        return 'object'       # an imported function / attribute of an imported module
+    return None
+
+
+def _ev(test, metric, val, mod, fi=None):
     """Three-valued truth of `test` when parameter `metric` has value `val`
     (a string, or _CALLABLE)."""
     if isinstance(test, ast.UnaryOp) and isinstance(test.op, ast.Not):
-        v = _ev(test.operand, metric, val, mod)
+        v = _ev(test.operand, metric, val, mod, fi)
         return None if v is None else not v
     if isinstance(test, ast.BoolOp):
-        vs = [_ev(x, metric, val, mod) for x in test.values]
+        vs = [_ev(x, metric, val, mod, fi) for x in test.values]
         if isinstance(test.op, ast.And):
             return False if False in vs else (None if None in vs else True)
         return True if True in vs else (None if None in vs else False)
+    if isinstance(test, ast.Compare) and len(test.ops) == 1 and isinstance(test.ops[0], (ast.Is, ast.IsNot)) \
+            and isinstance(test.comparators[0], ast.Constant) and test.comparators[0].value is None:
+        lu = _looked_up(test.left, metric, val, mod, fi)
+        if lu is None:
+            return None
+        return (lu == 'none') == isinstance(test.ops[0], ast.Is)
+    if isinstance(test, (ast.Name, ast.Subscript)) or (isinstance(test, ast.Call) and isinstance(test.func, ast.Attribute)
+                                                       and test.func.attr == 'get'):
+        lu = _looked_up(test, metric, val, mod, fi)
+        return None if lu is None else lu == 'object'
     if isinstance(test, ast.Call) and not test.keywords:
         cn = call_name(test)
         if cn == 'callable' and len(test.args) == 1 and isinstance(test.args[0], ast.Name) and test.args[0].id == metric:
@@ -1348,12 +1534,12 @@ def _decision_paths(stmts, conds, metric):
     yield conds, ('fall', None)
 
 
-def _decide(fn, metric, val, mod):
+def _decide(fn, metric, val, mod, fi=None):
     """Outcome of the function for metric == val, or ('unknown', why)."""
     for conds, outcome in _decision_paths(fn.body, [], metric):
         verdict = True
         for test, pol in conds:
-            v = _ev(test, metric, val, mod)
+            v = _ev(test, metric, val, mod, fi)
             if v is None:
                 verdict = None
                 break
@@ -1367,9 +1553,12 @@ def _decide(fn, metric, val, mod):
     return ('unknown', 'no path')
 
 
-def _global_ref(mod, fi, e):
-    """(module, attribute) an expression refers to through the imports."""
-    e = fi.expand(e) if e is not None else e
+def _global_ref(mod, fi, e, module_level=False):
+    """(module, attribute) an expression refers to through the imports.
+    module_level: `e` is evaluated at module level (an entry of a module-level
+    table), not inside the function."""
+    if not module_level:
+        e = fi.expand(e) if e is not None else e
     imps = _module_imports(mod)
     shadow = set(mod.functions) | set(mod.classes) | {t for s in mod.tree.body if isinstance(s, ast.Assign)
                                                       for tt in s.targets for t in target_names(tt)}
@@ -1400,19 +1589,38 @@ def d6_registry(ck):
     want = {'euclidean': ('libdist', 'euclidean'), 'manhattan': ('libdist', 'manhattan'),
             'cityblock': ('libdist', 'manhattan'), 'rmsd': ('mdtraj', 'rmsd')}
     n = 0
+    def through_table(out, val):
+        """A returned table lookup `T[metric]` / `T.get(metric)` (possibly held in a
+        temporary / selected by a conditional expression) is replaced by the table's
+        entry for this metric name -> (outcome, entry is evaluated at module level)."""
+        if out[0] != 'return' or out[1] is None:
+            return out, False
+        r = _resolve(out[1], metric, val, mod, fi)
+        if r is None:
+            return ('unknown', 'value `%s` not decided' % u(out[1])[:80]), False
+        if r[0] == 'keyerror':
+            return ('raise', out[1]), False
+        return ('return', r[1]), r[2]
+
     for key, (wm, wa) in want.items():
-        out = _decide(fn, metric, key, mod)
+        out = _decide(fn, metric, key, mod, fi)
         n += out[0] in ('return', 'raise', 'fall')
         shown = "'%s' -> %s" % (key, u(out[1]) if out[0] == 'return' else out[0])
         if out[0] == 'unknown' or out[0] == 'opaque':
             ck.missing(rule, "mapping of metric name '%s' not decided: %s" % (key, out[1] if out[0] == 'unknown' else u(out[1])[:80]))
             continue
+        out, modlevel = through_table(out, key)
+        if out[0] == 'unknown':
+            ck.missing(rule, "mapping of metric name '%s' not decided: %s" % (key, out[1]))
+            continue
+        if out[0] == 'return' and out[1] is not None and u(out[1]) not in shown:
+            shown += ' = %s' % u(out[1])
         if out[0] != 'return' or out[1] is None:
             ck.bad(rule, mod, fn, '_get_distance_method', shown, "metric name '%s' must map to %s" % (key, wa))
             continue
-        ref = _global_ref(mod, fi, out[1])
+        ref = _global_ref(mod, fi, out[1], True)      # already expanded by through_table
         if ref is None:
-            ev = fi.expand(out[1])
+            ev = out[1]
             if isinstance(ev, ast.Name) and ev.id == metric:
                 ck.bad(rule, mod, fn, '_get_distance_method', shown, "metric name '%s' must map to %s" % (key, wa))
             else:
@@ -1422,16 +1630,20 @@ def d6_registry(ck):
         ck.check(okm, rule, mod, fn, '_get_distance_method', shown,
                  "metric name '%s' maps to %s.%s" % (key, ref[0], ref[1]),
                  "metric name '%s' must map to %s.%s (it maps to %s.%s)" % (key, wm, wa, ref[0], ref[1]))
-    out = _decide(fn, metric, _CALLABLE, mod)
+    out = _decide(fn, metric, _CALLABLE, mod, fi)
     if out[0] in ('unknown', 'opaque'):
         ck.missing(rule, 'treatment of a callable metric not decided: %s' % (out[1] if out[0] == 'unknown' else u(out[1])[:80]))
     else:
+        out, _ml = through_table(out, _CALLABLE)
         ok = out[0] == 'return' and isinstance(out[1], ast.AST)
         if ok:
-            ev = fi.expand(out[1])
+            ev = out[1]
             ok = isinstance(ev, ast.Name) and ev.id == metric and not _rebinds(fi, metric)
-        ck.check(ok, rule, mod, fn, '_get_distance_method', 'callable(metric) -> metric',
-                 'user callables are passed through', 'a user-supplied callable must be returned unchanged')
+        if out[0] == 'unknown':
+            ck.missing(rule, 'treatment of a callable metric not decided: %s' % out[1])
+        else:
+            ck.check(ok, rule, mod, fn, '_get_distance_method', 'callable(metric) -> metric',
+                     'user callables are passed through', 'a user-supplied callable must be returned unchanged')
     ck.floor(rule, n, 4, 'metric names')
 
 
